@@ -683,7 +683,7 @@ macro_rules! disp_prop {
         impl $name {
             fn gen(g: &mut Gen, tier: Tier) -> DispatchCase {
                 let max_trains = if tier == Tier::Thorough { 12 } else { 10 };
-                gen_dispatch_case(g, max_trains, &CorridorOpts { p_lockout: 0.25, p_branch: 0.3, p_short_east: 0.08, p_short_ends: std::env::var("VERIF_SHORT_ENDS").ok().and_then(|s| s.parse().ok()).unwrap_or(0.12), ..Default::default() })
+                gen_dispatch_case(g, max_trains, &CorridorOpts { p_lockout: 0.25, p_branch: 0.3, p_bypass: 0.3, p_short_east: 0.08, p_short_ends: std::env::var("VERIF_SHORT_ENDS").ok().and_then(|s| s.parse().ok()).unwrap_or(0.12), ..Default::default() })
             }
             fn check(c: &DispatchCase, cx: &mut Ctx) {
                 $check(c, cx)
